@@ -338,3 +338,16 @@ PROPS['C17']['explanation'] = ('E1: plot(): for an arbitrary record and an arbit
                                'selected one down to the best, the best in black and last; the figure of the source gets exactly the collected curves, once the best fit is in. The helpers (scale_to_distance: '
                                'inverse square; scale_to_av: 10^(A_V k); SED.interpolate; get_av; get_sed) are proved separately. E2: the drawn curves of the real plot() against the stored predicted fluxes, '
                                'all display modes.')
+
+
+# ---- state completeness (what is handed to pickle / dict, and put back) ---------------------------------
+ST_SRC = [SRC + '__getstate__', SRC + '__setstate__']
+ST_FI = [FI + '__getstate__', FI + '__setstate__']
+ST_EXT = [EXTN + '__getstate__', EXTN + '__setstate__']
+PROPS['C10']['e1'] = PROPS['C10']['e1'] + ST_SRC + ST_FI + ST_EXT
+PROPS['C14']['e1'] = PROPS['C14']['e1'] + ST_EXT
+PROPS['C20']['e1'] = PROPS['C20']['e1'] + ST_SRC + [SRC + 'to_dict', SRC + 'from_dict']
+PROPS['C17']['e1'] = PROPS['C17']['e1'] + ST_EXT
+for _p in ('C10', 'C14', 'C20'):
+    PROPS[_p]['explanation'] += (' State completeness: __getstate__ (to_dict) hands over every field of the object with its unit, __setstate__ (from_dict) puts every field back from the state of a '
+                                 'well-formed object (that pickle preserves such a dictionary is the assumed dependency contract; exercised natively by the bounded run).')
